@@ -22,9 +22,9 @@ RULE = ('schedules: random API-built designs x seeded worklist tie-breaks (hook 
         'non-trivial when the design has >= 4 nets; every net of every faulted design is also run through the '
         'real sanity_check_net and the raise it hits (by source line) compared with Gen/SanityNet.check; every '
         'API-built design is checked against the hypotheses of the completeness theorem')
-IMPORTS = 'From PyRTL Require Import Netlist.Iter Netlist.Sanity.'
-IMPORTS_GEN = 'From PyRTL Require Import Netlist.Iter Netlist.Sanity Gen.SanityNet.'
-COQ_TARGETS = ['theories/Netlist/Sanity.vo', 'theories/Gen/SanityNet.vo']
+IMPORTS = 'From PyRTL Require Import Netlist.Iter Netlist.Sanity Netlist.MemSync.'
+IMPORTS_GEN = 'From PyRTL Require Import Netlist.Iter Netlist.Sanity Netlist.MemSync Gen.SanityNet.'
+COQ_TARGETS = ['theories/Netlist/Sanity.vo', 'theories/Netlist/MemSync.vo', 'theories/Gen/SanityNet.vo']
 ASSUMPTIONS = ['faults that the deep embedding cannot represent (op_param of wrong Python type, memid '
                'mismatch) are checked against the implementation only; the corresponding guards of sanity_check_net '
                '(raises 1-3, 8, 19-21, 23-28, 38) are translated but proved never to fire on an embedded net, so '
@@ -106,14 +106,81 @@ def gen_guards(ctx):
         return False, {}
 
 
+class Hang(BaseException):
+    """the call did not come back within the deadline (BaseException: not swallowed by `except Exception`)"""
+
+
+@contextlib.contextmanager
+def deadline(seconds=5):
+    import signal
+
+    def onalarm(signum, frame):
+        raise Hang()
+    old = signal.signal(signal.SIGALRM, onalarm)
+    signal.setitimer(signal.ITIMER_REAL, seconds)
+    try:
+        yield
+    finally:
+        signal.setitimer(signal.ITIMER_REAL, 0)
+        signal.signal(signal.SIGALRM, old)
+
+
+def real_memsync(block):
+    """outcome class of Block.sanity_check_memory_sync called on its own: 0 returns, 1 PyrtlError,
+    2 KeyError (a wire without an entry in wire_src_dict), 9 anything else"""
+    try:
+        with deadline():
+            block.sanity_check_memory_sync()
+        return 0
+    except pyrtl.PyrtlError:
+        return 1
+    except KeyError:
+        return 2
+    except Hang:
+        return 8
+    except Exception:
+        return 9
+
+
+def sync_ids(block):
+    return sorted({n.op_param[0] for n in block.logic
+                   if n.op == 'm' and isinstance(n.op_param, tuple) and len(n.op_param) == 2
+                   and not n.op_param[1].asynchronous})
+
+
+# faults under which the name-keyed dump still shows the walk what the real walk sees
+MEMSYNC_TIE_FAULTS = {'read_never_driven', 'register_never_driven', 'comb_cycle', 'declared_unconnected',
+                      'output_arg', 'dest_too_wide', 'width_mismatch', 'select_param_oob', 'wrong_arity',
+                      'mux_select_width'}
+
+
+def memsync_probe(ctx, i):
+    """small design with a synchronous memory whose read address is ANY wire of the design (register, Input slice,
+    concat/select chain, or the result of an arithmetic/logic net): about half are accepted by the walk"""
+    rng = ctx.sub_rng('memsync', i)
+    d = gen_designs.make_design(rng, wide_prob=0.0, n_ops=rng.randint(2, 7), allow_mem=False, allow_rom=False)
+    src = sorted((w for w in d.block.wirevector_set if not isinstance(w, pyrtl.Output)), key=lambda w: w.name)
+    m = pyrtl.MemBlock(bitwidth=rng.randint(1, 6), addrwidth=rng.randint(1, 3), name='pm', max_read_ports=None)
+    for k in range(rng.randint(1, 3)):
+        a = rng.choice(src)
+        if rng.random() < 0.5:
+            a = pyrtl.concat(a, rng.choice(src))[::rng.choice([1, 1, 2, -1])]
+        o = pyrtl.Output(m.bitwidth, 'pm_out%d' % k)
+        o <<= m[gen_designs.fit(rng, a, m.addrwidth)]
+    m[gen_designs.fit(rng, rng.choice(src), m.addrwidth)] <<= gen_designs.fit(rng, rng.choice(src), m.bitwidth)
+    return d
+
+
 def real_accepts(block):
     """(accepted, error_kind)"""
     try:
-        with contextlib.redirect_stdout(io.StringIO()):   # find_and_print_loop prints
+        with deadline(), contextlib.redirect_stdout(io.StringIO()):   # find_and_print_loop prints
             block.sanity_check()
             list(block)
     except (pyrtl.PyrtlError, pyrtl.PyrtlInternalError) as e:
         return False, type(e).__name__
+    except Hang:
+        return None, 'does-not-return'
     except Exception as e:  # not a PyRTL error: counts as not properly rejected
         return None, type(e).__name__
     return True, ''
@@ -129,11 +196,13 @@ def sims_reject(block, with_compiled):
             tracer=pyrtl.SimulationTrace(block=block), block=block)))
     for nm, c in ctors:
         try:
-            with contextlib.redirect_stdout(io.StringIO()):
+            with deadline(60), contextlib.redirect_stdout(io.StringIO()):
                 c()
             bad.append((nm, 'accepted'))
         except (pyrtl.PyrtlError, pyrtl.PyrtlInternalError):
             pass
+        except Hang:
+            bad.append((nm, 'does-not-return'))
         except Exception as e:
             bad.append((nm, type(e).__name__))
     return bad
@@ -474,6 +543,9 @@ def run(ctx):
         if gen_ok:
             exprs.append('hyp_case %s' % nl)
             meta.append(('hyp', i))
+        if sync_ids(block):
+            exprs.append('memsync_case %s %s' % (nl, nlx.zlist(sync_ids(block))))
+            meta.append(('memsync', i, 'none', real_memsync(block), {'seed': ctx.seed, 'design': i}))
         for s in range(nseeds):
             if s == 0:
                 order, choices = list(block), None   # CPython's own set order
@@ -488,6 +560,20 @@ def run(ctx):
                 exprs.append('iter_case %s [%s]' % (nl, '; '.join('%d%%nat' % c for c in choices)))
                 meta.append(('model', i, s, real_idx, len(logic)))
             ctx.count('nets_per_design', min(len(logic) // 10 * 10, 60))
+    # ---- (e): the walk of sanity_check_memory_sync on its own, accepted and rejected index logic
+    for i in range(30 if ctx.tier == 'quick' else 400):
+        d = memsync_probe(ctx, i)
+        block = d.block
+        real = real_memsync(block)
+        ctx.count('memsync_probe_outcome', real)
+        full, _ = real_accepts(block)
+        if (real == 0) != (full is True):
+            ctx.spec_violation('memsync-vs-sanity_check',
+                               'API-built design with a synchronous memory: sanity_check_memory_sync class %s but '
+                               'sanity_check accepted=%s' % (real, full), {'seed': ctx.seed, 'probe': i})
+        exprs.append('memsync_case %s %s' % (NameDump(block, list(block.logic)).coq(), nlx.zlist(sync_ids(block))))
+        meta.append(('memsync', 'p%d' % i, 'probe', real, {'seed': ctx.seed, 'probe': i}))
+        ctx.case(('memsync', i, real), nontrivial=True)
     # ---- (b): fault injection
     for i in range(ndesigns):
         for fault in FAULTS:
@@ -547,6 +633,9 @@ def run(ctx):
                         else:
                             exprs.append('(sanity_case %s [], (@nil Z))' % dump.coq())
                             meta.append(('sanity', i, fault, ok, rep, None, None))
+                        if fault in MEMSYNC_TIE_FAULTS and sync_ids(block):
+                            exprs.append('memsync_case %s %s' % (dump.coq(), nlx.zlist(sync_ids(block))))
+                            meta.append(('memsync', i, fault, real_memsync(block), rep))
                     except Exception as e:
                         ctx.notes.append('dump failed for fault %s: %r' % (fault, e))
     imports = IMPORTS + '''
@@ -572,6 +661,15 @@ Definition order_case (nl : netlist) (idx : list Z) : list Z :=
             if r[0] != [0] or r[1] != real_idx:
                 ctx.model_mismatch('Netlist/Iter.v replaying the hook choices yields a different order than Block.__iter__',
                                    {'seed': ctx.seed, 'design': i, 'schedule_seed': s, 'real': real_idx, 'model': r})
+        elif m[0] == 'memsync':
+            _, i, fault, real, rep = m
+            codes = [x[0] for x in r]
+            ctx.count('memsync_tie', '%s:%s' % (fault if fault in ('none', 'probe') else 'fault', real))
+            agree = (real == 0 and all(c == 0 for c in codes)) or (real in (1, 2) and real in codes)
+            if not agree or 3 in codes:
+                ctx.model_mismatch('Netlist/MemSync.v and Block.sanity_check_memory_sync disagree (real class %s, model per-port '
+                                   'codes %s; 0 ok, 1 PyrtlError, 2 KeyError, 3 out of fuel)' % (real, codes),
+                                   dict(rep, fault=fault))
         elif m[0] == 'hyp':
             _, i = m
             ctx.count('completeness_hypotheses_hold', r == [1, 1, 1])
